@@ -51,7 +51,7 @@ def ListenOut (cfg : Cfg) (M : List Nat) (adr : Nat → Nat) (b : Bus) (H Lo : I
     (LOk cfg M adr { b with seen := b.seen.set j now } H Lo j (upSt st c) ∨
      ((∃ t a, b.txs.getLast? = some t ∧ t.bytes = tokenBytes (adr j) a) ∧ StOkN cfg M (upSt st c) (adr j) ∧
         c.s.st = .useToken ⟨now, none⟩ false ∧ c.s.lastBusActivity = some now ∧ c.s.pendingBytes = 0 ∧ c.rx = [] ∧
-        ∀ o ∈ b.txs, o.sender = j ∨ cEnd cfg o ≤ now))
+        (∀ o ∈ b.txs, o.sender = j ∨ cEnd cfg o ≤ now) ∧ (∀ o ∈ b.txs, o.sender = j → cEnd cfg o ≤ now + 1)))
 
 theorem getD_set_self (b : Bus) (j : Nat) (now : Int) (hj : j < b.seen.length) :
     ({ b with seen := b.seen.set j now } : Bus).seen.getD j 0 = now := seen_set_self b j now hj
@@ -450,7 +450,7 @@ theorem listener_step {cfg : Cfg} {M : List Nat} {adr : Nat → Nat} {n : Nat} {
       have hokS' : StOkN cfg M (upSt st c') (adr j) :=
         hokS.step now false _ c' hpoll (a5.trans c5) a8 (a6.trans c6)
       refine ⟨inc, c', hd, by rw [hphy, hrx']; exact hpoll, a1.trans c1, .inr ⟨⟨t, a, ?_, hbt ▸ hbk ▸ rfl⟩, hokS', a7, a9, a10,
-        by rw [a2, c2, hbn], ?_⟩⟩
+        by rw [a2, c2, hbn], ?_, fun o ho hs => by have := h0 o ho hs; omega⟩⟩
       · rw [h1, List.getLast?_append, hlast]; rfl
       · intro o ho
         rw [h1] at ho
